@@ -56,9 +56,16 @@ def fund_cases(draw, tier):
                  "shockTimeLength": draw(st.integers(1, 5)), "enabled": draw(st.sampled_from([True, True, True, False]))}
     if draw(st.booleans()):
         del cfg["SH"]["shockTimeLength"]
+    shs2 = None
+    if draw(st.integers(0, 2)) == 0:
+        # a second, independent shock (any market, any session): the effects must simply compose
+        shs2 = draw(st.integers(0, ns - 1))
+        cfg["SH2"] = {"class": "FundamentalPriceShock", "target": draw(st.sampled_from(names)), "triggerTime": draw(st.integers(0, min(lens[shs2], 60) + 1)),
+                      "priceChangeRate": draw(st.sampled_from([0.2, -0.15, 0.01])), "shockTimeLength": draw(st.integers(1, 3))}
     for s in range(ns):
         ses = {"sessionName": s, "iterationSteps": lens[s], "withOrderPlacement": draw(st.booleans()), "withOrderExecution": draw(st.booleans()),
-               "withPrint": False, "maxNormalOrders": 2, "events": (["P"] if s == 0 else []) + (["SH"] if s == shs else [])}
+               "withPrint": False, "maxNormalOrders": 2,
+               "events": (["P"] if s == 0 else []) + (["SH"] if s == shs else []) + (["SH2"] if s == shs2 else [])}
         cfg["simulation"]["sessions"].append(ses)
     return {"config": cfg, "seed": draw(st.integers(0, 2**31 - 1))}
 
@@ -67,13 +74,22 @@ def fund_check(case):
     res = run_case(case, OPTS)
     A = Analysis(case, res)
     sim, cfg = A.sim, case["config"]
+    shocks = []  # (target name, window steps that are actually executed, rate), in registration order
+    for key in ("SH", "SH2"):
+        if key not in cfg:
+            continue
+        sh_ = cfg[key]
+        ss = [i for i, s in enumerate(A.sess_cfg) if key in s.get("events", [])][0]
+        start = sum(s["iterationSteps"] for s in A.sess_cfg[:ss])
+        length_ = sh_.get("shockTimeLength", 1)
+        win = [w for w in range(start + sh_["triggerTime"], start + sh_["triggerTime"] + length_) if w < A.total_steps]
+        if not sh_.get("enabled", True):
+            win = []
+        shocks.append((sh_["target"], win, sh_["priceChangeRate"], ss))
     sh = cfg["SH"]
-    shs = [i for i, s in enumerate(A.sess_cfg) if "SH" in s.get("events", [])][0]
-    start = sum(s["iterationSteps"] for s in A.sess_cfg[:shs])
+    shs = shocks[0][3]
     length = sh.get("shockTimeLength", 1)
-    window = [w for w in range(start + sh["triggerTime"], start + sh["triggerTime"] + length) if w < A.total_steps]
-    if not sh["enabled"]:
-        window = []
+    window = shocks[0][1]
     rate = sh["priceChangeRate"]
     # closed form at zero volatility
     for m in sim.markets:
@@ -83,13 +99,15 @@ def fund_check(case):
         init = c.get("fundamentalPrice", c["marketPrice"])
         series = m.get_fundamental_prices()
         for t, f in enumerate(series):
-            k = sum(1 for w in window if w <= t) if m.name == sh["target"] else 0
-            exp = init * math.exp(c["fundamentalDrift"] * t) * (1 + rate) ** k
+            exp = init * math.exp(c["fundamentalDrift"] * t)
+            for tgt, win, r_, _ in shocks:
+                if tgt == m.name:
+                    exp *= (1 + r_) ** sum(1 for w in win if w <= t)
             if not math.isclose(f, exp, rel_tol=1e-9):
                 raise Violation("C14.fundamental_closed_form", f"market {m.name} t={t}: fundamental {f!r}, expected {exp!r} "
-                                                               f"({'target' if m.name == sh['target'] else 'not the target'}, window {window}, rate {rate})")
+                                                               f"(shocks (target, executed window, rate): {[(a, b, c_) for a, b, c_, _ in shocks]})")
     # within-step reads: first before-step hook of the step vs the step-begin record of each market
-    ti = [m.name for m in sim.markets].index(sh["target"])
+    names_ = [m.name for m in sim.markets]
     first_hook = {}
     for i, (k, kw) in enumerate(A.items):
         if k == "hook" and kw["what"] == "market_before" and kw["times"][0] not in first_hook:
@@ -102,13 +120,16 @@ def fund_check(case):
             mi = sim.markets.index(sim.id2market[kw["market_id"]])
             for j, (b, a) in enumerate(zip(before, kw["fund"])):
                 # by the time market mi's step-begin record is written, the before-step hooks of markets 0..mi have run
-                factor = (1 + rate) if (j == ti and t in window and mi >= ti) else 1.0
+                factor = 1.0
+                for tgt, win, r_, _ in shocks:
+                    if names_.index(tgt) == j and t in win and mi >= j:
+                        factor *= (1 + r_)
                 if not math.isclose(a, b * factor, rel_tol=1e-12):
                     raise Violation("C14.fundamental_shock_within_step", f"step {t}: fundamental of market {j} went {b!r} -> {a!r} across the before-step hooks "
-                                                                         f"(expected factor {factor}; target {ti}, window {window})")
+                                                                         f"(expected factor {factor}; shocks {[(a_, b_, c_) for a_, b_, c_, _ in shocks]})")
     nt = bool(window)
     classes = (["window"] if window else []) + (["disabled"] if not sh["enabled"] else []) + \
-              (["window_truncated"] if sh["enabled"] and len(window) < length else []) + (["crosses_chunk_after_shock"] if window and A.total_steps > 100 else [])
+              (["window_truncated"] if sh["enabled"] and len(window) < length else []) + (["crosses_chunk_after_shock"] if window and A.total_steps > 100 else []) + (["two_shocks"] if len(shocks) == 2 else [])
     return CaseInfo(nontrivial=nt, classes=classes, steps=A.total_steps,
                     sample={"shock": sh, "session_lengths": [s["iterationSteps"] for s in A.sess_cfg], "shock_session": shs, "window": window, "seed": case["seed"]})
 
